@@ -30,6 +30,10 @@ type Step struct {
 	Tree  []string // tree walk through the public API (nil when not taken)
 	TreeE string   // error of the tree walk, if any
 	Res   string   // result class
+	// LateWedge: the call returned, but the instance turned out to be wedged afterwards.
+	LateWedge bool
+	// OracleMsgs collects "<property>\x00<message>" from the oracles that ran after this call.
+	OracleMsgs []string
 }
 
 // History is one executed history.
@@ -79,19 +83,24 @@ func RunHistory(dir string, c Cfg, id string, next func() (Call, bool), wantTree
 			st.Obs = append(st.Obs, e.RootLine(), fmt.Sprintf("blocks\t%d", blocks))
 			prevBlocks = blocks
 			if wantTree {
-				t, terr := s.TreeLines()
-				if terr != nil {
-					st.TreeE = terr.Error()
-				}
-				st.Tree = t
-				if s.Wedged {
+				if !s.Guard(func() {
+					t, terr := s.TreeLines()
+					if terr != nil {
+						st.TreeE = terr.Error()
+					}
+					st.Tree = t
+				}) {
 					st.TreeE = "stuck"
+					st.Tree = nil
 				}
 			}
 		}
+		// a call may return normally and still leave the drive locked (the watchdog then fires
+		// on the observation, not on the call): the history ends here as well
 		if after != nil && !s.Wedged {
-			after(i, s, &st)
+			s.Guard(func() { after(i, s, &st) })
 		}
+		st.LateWedge = s.Wedged && st.Res != "stuck"
 		hist.Steps = append(hist.Steps, st)
 		if s.Wedged {
 			hist.Wedged = true
@@ -202,7 +211,7 @@ func CompareCorr(h *History, m []ModelStep) *Mismatch {
 		}
 		impl := st.Obs
 		model := m[i].Obs
-		if h.Wedged && i == len(h.Steps)-1 {
+		if h.Wedged && i == len(h.Steps)-1 && !st.LateWedge {
 			// only the result class is observable on a wedged instance
 			if len(model) > 0 {
 				model = model[:1]
